@@ -113,6 +113,11 @@ def is_path_ignored(
             _LOGGER.info("ignoring '%s' because it is a submodule", path)
             return True
 
+    else:
+        # Neither a regular file nor a directory (a FIFO, a socket, a device).
+        _LOGGER.debug("skipping '%s' because it is not a regular file", path)
+        return True
+
     if vcs_strategy and vcs_strategy.is_ignored(path):
         return True
 
